@@ -288,9 +288,8 @@ func (e *env) directed(rng *rand.Rand) {
 	absentD := vh.DigestOf("sha256", []byte(fmt.Sprint("absent", e.idx)))
 	var presentBlob string
 	for d := range m.Stored {
-		if m.Mans[d] == nil {
+		if m.Mans[d] == nil && (presentBlob == "" || d < presentBlob) {
 			presentBlob = d
-			break
 		}
 	}
 	var unpushable *vh.Man
